@@ -9,6 +9,7 @@ import Z80.Spec.Koron
 import Z80.Spec.Interrupt
 import Z80.Spec.KoronIM0
 import Z80.RunModel
+import Z80.Gen.TinyCPM
 
 open Z80 Z80.Proto
 
@@ -40,6 +41,24 @@ def genRun (fuel : Nat) (s : St) : Option (String × St) :=
   | .done .errBreakPoint t => some ("bp", t)
   | .done .ctxErr t => some ("ctx", t)
 
+/-- the tinycpm machine: zero memory, the BIOS pages from the REGENERATED table, then the vector's overrides;
+    a device that answers 0; console = bytes written to port 0; every other port access is a warning -/
+def cpmState (v : Vec) (line : String) : St :=
+  let toks := (line.splitOn " ").filter (· ≠ "")
+  let mo := match toks.dropWhile (· ≠ "MO") with | _ :: x :: _ => x | _ => "-"
+  let ovs := (parseOverrides mo).getD []
+  let bios : List (U16 × List U8) := Z80.Gen.cpmBios.map fun p => (BitVec.ofNat 16 p.1, p.2.map (BitVec.ofNat 8))
+  { v.st with mem := applyOverrides (fun _ => 0#8) (bios ++ ovs), dev := fun _ _ => 0#8, IO := true, IFF1 := false, IFF2 := false, IM := 0,
+              HALT := false, Interrupt := none, BreakPoints := none, RETNHandler := false, RETIHandler := false,
+              IX := 0#16, IY := 0#16, IR := ⟨0#8, 0#8⟩, Alternate := default }
+
+def cpmResult (id : String) (code : String) (s : St) : String :=
+  let chron := s.log.reverse
+  let outB := chron.filterMap fun e => match e with | .iow p v => if p == 0#8 then some v else none | _ => none
+  let warns := (chron.filter fun e => match e with | .iow p _ => p != 0#8 | .ior _ _ => true | _ => false).length
+  String.intercalate " " [id, "cpm", "PC", hex16 s.PC, "SP", hex16 s.SP, "HALT", b01 s.HALT, "OUT", (if outB.isEmpty then "-" else hexBytes outB),
+    "WARN", toString warns, "RUN", code]
+
 /-- N consecutive Run calls -/
 def runCalls (run1 : St → Option (String × St)) : Nat → St → String → Option (String × St)
   | 0, s, codes => some (codes, s)
@@ -56,7 +75,11 @@ partial def loop (h : IO.FS.Stream) (out : IO.FS.Stream) (step : M Unit) (isGen 
   match parseVec line with
   | none => out.putStrLn ("? bad-vector " ++ line)
   | some v =>
-    if v.kind == "run" then
+    if v.kind == "cpm" then
+      match (if isGen then genRun 400000 else refRun step 400000) (cpmState v line) with
+      | some (code, s) => out.putStrLn (cpmResult v.id code s)
+      | none => out.putStrLn (v.id ++ " running")
+    else if v.kind == "run" then
       let run1 := if isGen then genRun 100000 else refRun step 100000
       match runCalls run1 (max v.steps 1) v.st "" with
       | some (codes, s) => out.putStrLn (resultStr v.id s ++ " RUN" ++ codes)
